@@ -29,6 +29,7 @@ class Ctx:
         self.info = {}
         self.t0 = time.monotonic()
         self.replaying = False
+        self.current = None
 
     @property
     def quick(self):
@@ -88,9 +89,26 @@ def main():
     mod = importlib.import_module("vf.mon." + prop.lower())
     ctx = Ctx(prop, "quick" if tier == "replay" else tier, seed, shard, nshards)
     ctx.info["markdown_it"] = here
-    wd = getattr(mod, "WATCHDOG", {}).get(ctx.tier, 0)
+    wd = getattr(mod, "WATCHDOG", {}).get(ctx.tier, 0) or (560 if ctx.tier == "quick" else 7000)
     if wd:
         faulthandler.dump_traceback_later(wd, exit=True)
+    # stall detector (diagnostic only): the same case still running after two consecutive ticks
+    import signal
+    state = {"ev": -1, "cur": None}
+
+    def on_tick(signum, frame):
+        ev = ctx.counters.get("evaluations", 0)
+        if ev == state["ev"] and ctx.current is state["cur"] and ctx.current is not None:
+            sys.stderr.write("STALL on case: " + json.dumps(ctx.current, default=repr)[:4000] + "\n")
+            traceback.print_stack(frame)
+            sys.stderr.flush()
+            os._exit(5)
+        state["ev"], state["cur"] = ev, ctx.current
+
+    if hasattr(signal, "setitimer") and not os.environ.get("VERIF_NO_STALL"):
+        signal.signal(signal.SIGALRM, on_tick)
+        tick = getattr(mod, "STALL_S", 120)
+        signal.setitimer(signal.ITIMER_REAL, tick, tick)
     try:
         if tier == "replay":
             body = json.load(open(sys.argv[7], encoding="utf8"))
